@@ -150,6 +150,7 @@ def checkView (s : PSys) (toks : List String) : String :=
 def handleP (st : Option PSys) (cmd : List String) : Option PSys × String :=
   match cmd with
   | ["new"] => (some init, "ok")
+  | ["new", _] => (some init, "ok")
   | "ev" :: toks =>
     match st with
     | none => (none, "skip")
